@@ -316,8 +316,11 @@ func (mi *MessageInfo) unmarshalPointerLazy(b []byte, p pointer, groupTag protow
 					}
 				case lazyFields[f] == lazyUnmarshalLater:
 					// This field will be unmarshaled in a separate pass below.
-					// Skip over it here.
-					discardUnknown = true
+					// Skip over it here. A record with another wire type is an
+					// unknown field for that pass too, so it is kept.
+					if wtyp == protowire.Type(f.wiretag&7) {
+						discardUnknown = true
+					}
 					break Field
 				default:
 					// Eagerly unmarshal the field.
